@@ -123,7 +123,7 @@ Definition nullable (t: ty) : bool :=
   | TUnion [a; b] => is_tnone a || is_tnone b
   | _ => false end.
 
-(* CodeBuilder.is_field_nullable (kernel K17; Annotated/Final wrappers are already removed in `ty`):
+(* CodeBuilder.is_field_nullable (kernel K20; Annotated/Final wrappers are already removed in `ty`):
    nullable type, or the default is None *)
 Definition fnullable (f: field) : bool := nullable (f_ty f) || f_dnone f.
 
